@@ -326,17 +326,28 @@ func init() {
 				u := uint8(v)
 				for _, in := range []color.Color{color.Gray{Y: u}, color.Gray16{Y: uint16(v)*257 ^ 0x55}, color.Gray16{Y: uint16(v) << 8}, color.CMYK{C: u, M: uint8(255 - v), Y: 9, K: uint8(v / 2)},
 					color.CMYK{K: uint8(255 - v)}, color.YCbCr{Y: u, Cb: 128, Cr: 128}, color.YCbCr{Y: u, Cb: uint8(255 - v), Cr: 77}, color.NYCbCrA{YCbCr: color.YCbCr{Y: u, Cb: 100, Cr: 200}, A: 255},
-					color.Alpha{A: 255}, color.Alpha16{A: 0xffff}, opaqueCustom{uint16(v) * 251, uint16(65535 - v*3), uint16(v)}} {
+					color.Alpha{A: 255}, color.Alpha16{A: 0xffff}, opaqueCustom{uint16(v) * 251, uint16(65535 - v*3), uint16(v)},
+					// a colour object the caller keeps and overwrites between calls (pointer receiver), and one whose
+					// dynamic type cannot be compared (slice): a colour is what its RGBA() reports at the time of the call
+					reusedPtr.set(uint16(v)*199, uint16(v)*3, uint16(65535-v)), sliceColour{uint16(v) * 77, uint16(v), 4242}, sliceColour{uint16(v) * 77, uint16(v), 4242}} {
 					r16, g16, b16, a16 := in.RGBA()
 					if a16 != 0xffff {
 						continue
 					}
-					r, g, b, _ := s.encoded(in)
+					var r, g, b float32
+					if callNoPanic(func() { r, g, b, _ = s.encoded(in) }) {
+						c.res.fail(Failure{Class: "C01:" + s.name + ":panic", Desc: fmt.Sprintf("ColorFromEncodedColor panicked on a colour of type %T", in), Input: map[string]interface{}{"space": s.name, "colour": fmt.Sprintf("%T%v", in, in)}, Got: "panic", Want: "decoded colour"})
+						continue
+					}
 					entry := fmt.Sprintf("ColorFromEncodedColor(%T)", in)
 					bad(entry, int(r16), r, t16[r16])
 					bad(entry, int(g16), g, t16[g16])
 					bad(entry, int(b16), b, t16[b16])
-					lin := s.linearise(in)
+					var lin color.RGBA64
+					if callNoPanic(func() { lin = s.linearise(in) }) {
+						c.res.fail(Failure{Class: "C01:" + s.name + ":panic", Desc: fmt.Sprintf("LineariseColor panicked on a colour of type %T", in), Input: map[string]interface{}{"space": s.name, "colour": fmt.Sprintf("%T%v", in, in)}, Got: "panic", Want: "linearised colour"})
+						continue
+					}
 					if lin.R != quant16ref(math.Float32frombits(t16[r16])) || lin.G != quant16ref(math.Float32frombits(t16[g16])) || lin.B != quant16ref(math.Float32frombits(t16[b16])) || lin.A != 0xffff {
 						c.res.fail(Failure{Class: "C01:" + s.name + ":LineariseColor", Desc: fmt.Sprintf("LineariseColor on an opaque %T is not the 16-bit quantisation of the decoded value", in),
 							Input: map[string]interface{}{"space": s.name, "colour": fmt.Sprintf("%T%v", in, in)}, Got: fmt.Sprint(lin), Want: "quantised table values"})
@@ -378,6 +389,21 @@ func init() {
 }
 
 // a colour type the library cannot know
+type ptrColour struct{ r, g, b uint16 }
+
+func (p *ptrColour) RGBA() (uint32, uint32, uint32, uint32) {
+	return uint32(p.r), uint32(p.g), uint32(p.b), 0xffff
+}
+func (p *ptrColour) set(r, g, b uint16) *ptrColour { p.r, p.g, p.b = r, g, b; return p }
+
+var reusedPtr = &ptrColour{}
+
+type sliceColour []uint16
+
+func (c sliceColour) RGBA() (uint32, uint32, uint32, uint32) {
+	return uint32(c[0]), uint32(c[1]), uint32(c[2]), 0xffff
+}
+
 type opaqueCustom struct{ r, g, b uint16 }
 
 func (c opaqueCustom) RGBA() (uint32, uint32, uint32, uint32) {
